@@ -19,6 +19,8 @@ CLAIMED = {
     "C08": ("Every k/2 and neighbours, windows at the magic magnitudes, every binade x mantissa patterns (thorough: all 2^32 float32 patterns), on each architecture, compared as numbers with glibc's rounding functions; integer-returning forms whenever the result fits.", "6 C08", "xvdrive"),
     "C10": ("Thorough tier: all 2^32 float32 arguments of every unary elementary function, in two stream orders, on each of the 22 architectures, judged against the frozen per-function ulp bounds of DESIGN.md 8.1 inside the normal range and against the graceful-degradation predicate outside, with MPFR as arbiter; quick tier: every binade x 2048 mantissas plus windows at every algorithm switch point. Binary functions on lattice^2.", "6 C10, 8.1", "xvmath"),
     "C11": ("Every point of a stated double lattice (all binades x structured mantissas, windows at every switch point, k*pi/2 +- ulps up to 2^900, gamma poles) in two stream orders on each architecture, long double reference with MPFR arbiter; the coverage statement is about this lattice only.", "6 C11, 8.2", "xvmath"),
+    "C12": ("The special-operand table of the property (NaN, domain errors, poles, limits, identities) is placed in every lane among every companion class on each architecture; the symmetry/identity relations (odd, even, sincos, fabs/abs, rint/nearbyint, pow(x,0)) are checked bit-for-bit on every point of the unary argument spaces (thorough: all 2^32 float32 arguments).", "6 C12", "xvmath"),
+    "C13": ("Every (subject operand, lane position, companion class) triple of stated finite alphabets is executed next to the broadcast batch of the same subject on each architecture: bit-identity for the exact operations of C01-C08, same special-value class and accuracy bound for the elementary functions, with companion classes on both sides of every whole-batch any()/all() threshold.", "6 C13", "xvdrive+xvmath"),
     "C14": ("For every argument of the C10/C11 spaces and every architecture the number of iterations of the data-dependent loops of one call (counted through the XSIMD_VERIF_LOOP_TICK hook) is compared with a frozen per-function constant; calls are aborted after 1000 iterations, and a watchdog catches any call that does not return within 30 s (loops added without a tick).", "6 C14, 8.3", "xvmath"),
     "C17": ("Every scalar overload of the list is executed on the full operand spaces of C01/C02/C03/C06/C07/C08 (non-NaN operands) under each architecture's compile flags and judged by the same reference model as the batch lanes, so scalar and batch agree wherever the model is single-valued; clip and integer-exponent pow are checked in both forms against one shared model.", "6 C17", "xvdrive"),
 }
@@ -57,9 +59,9 @@ def main():
             "add_only": True,
         },
         "engines": [
-            {"name": "xvmath", "path": "engine/xvmath.cpp", "serves_properties": sorted(k for k, v in CLAIMED.items() if v[2] == "xvmath"),
+            {"name": "xvmath", "path": "engine/xvmath.cpp", "serves_properties": sorted(k for k, v in CLAIMED.items() if "xvmath" in v[2]),
              "kind_free_text": "bounded exhaustive explorer for the elementary functions: complete sweeps of stated argument spaces (all 2^32 float32 arguments in the thorough tier) in two stream orders over every architecture's kernel, ulp-bound and graceful-degradation oracles, MPFR arbiter, loop-tick accounting, hang watchdog"},
-            {"name": "xvdrive", "path": "engine/xvdrive.cpp", "serves_properties": sorted(k for k, v in CLAIMED.items() if v[2] == "xvdrive"),
+            {"name": "xvdrive", "path": "engine/xvdrive.cpp", "serves_properties": sorted(k for k, v in CLAIMED.items() if "xvdrive" in v[2]),
              "kind_free_text": "explicit-state bounded exhaustive explorer: dlopens one harness object per architecture (each compiled with exactly that ISA's flags), enumerates operand x lane-placement x architecture states with an odometer, checks refinement of the reference model on every transition, replays single batches"},
         ],
         "checks": checks,
